@@ -8,7 +8,7 @@ from sim.plan import canon_user_ops, schedule_sig
 ID = "C07"
 LEVEL = "fault_enumeration"
 TECHNIQUE = "deterministic simulation with exhaustive crash-point enumeration per run: SimCrash before storage write k / after provider write k for every k, restart on durable state only"
-RULE = ("a seeded base run (flavour, 1-6 user ops one- or two-sided, schedule style) is executed fault-free and its storage writes Ns and engine-issued provider writes Np are counted; "
+RULE = ("a seeded base run (flavour, in 30% of runs 1-4 objects already present under the roots before the first start with the providers' read positions at 'latest', 1-6 user ops, either one-sided or two-sided over disjoint partitions /p0 and /p1 (two users fighting over the same path while the process dies has no defined outcome beyond C02's no-loss, and is left to C02), schedule style) is executed fault-free and its storage writes Ns and engine-issued provider writes Np are counted; "
         "then for EVERY k in 1..Ns the identical plan is re-executed with the process dying immediately before storage write k, and for EVERY k in 1..Np immediately after provider "
         "write k (SimCrash derives from BaseException, in-memory engine dropped, providers' volatile session state reset, storage dict and provider contents at that instant are the "
         "durable state); a new engine is started, the remaining user operations of the plan are applied (variant 'resume') or not (variant 'halt'), and it is run to quiet. Oracles: "
@@ -89,7 +89,7 @@ def _oracle0(ex, case):
     lv = loss_violation(ex)
     if lv:
         return lv
-    sides = set(it[1] for it in case["plan"] if it[0] == "U")
+    sides = set(it[1] for it in case["plan"] if it[0] == "U") | set(x[0] for x in case["cfg"].get("prepop", ()))
     if len(sides) <= 1:
         t0, t1 = ex.world.tree(0), ex.world.tree(1)
         if t0 != t1:
@@ -106,14 +106,37 @@ def generate(rng, tier, index):
     flav = rng.choice(ALL_FLAVOURS)
     style = weighted(rng, (("eager", 2), ("batched", 4), ("bursty", 2), ("split", 3)))
     sides = rng.choice([(0,), (1,), (0, 1)])
+    disjoint = len(sides) == 2         # two-sided histories work on disjoint partitions /p0 (side 0) and /p1 (side 1): see RULE
     variant = rng.choice(["resume", "halt"])
     cfg = {"flavour": flav}
-    case = {"prop": ID, "cfg": cfg, "style": style, "family": "crash-" + variant, "variant": variant}
+    if rng.random() < 0.3:
+        # the roots already hold content when the engine starts for the first time: the initial walk matters
+        from sim import model as M
+        from sim.plan import propose
+        pre = []
+        trees = ({}, {})
+        ctr = [0]
+
+        def pay():
+            ctr[0] += 1
+            return "p%d" % ctr[0]
+        for _ in range(rng.randint(1, 4)):
+            s = rng.choice(sides)
+            op = propose(rng, trees[s], {"create": 3, "mkdir": 2}, pay)
+            if op and M.apply(trees[s], op[0], op[1:]):
+                pre.append([s] + list(op))
+        cfg["prepop"] = pre
+    case = {"prop": ID, "cfg": cfg, "style": style, "family": "crash-" + variant + ("-prepop" if cfg.get("prepop") else ""), "variant": variant}
     ex = Exec(cfg)
     try:
+        if disjoint:
+            ex.apply(["U", 0, "mkdir", "/p0"])
+            ex.apply(["U", 1, "mkdir", "/p1"])
         for wh in (2, 0, 1):        # (the sync service validates the roots first; the event services need that) every service has completed one loop (first cursor stored) before users act: see ASSUMPTIONS
             ex.apply(["S", wh])
-        gen_history(rng, ex, rng.randint(1, 6), sides=sides, style=style, mix=random_mix(rng))
+        if disjoint:
+            ex.apply(["Q"])
+        gen_history(rng, ex, rng.randint(1, 6), sides=sides, style=style, mix=random_mix(rng), prefixes=({0: "/p0", 1: "/p1"} if disjoint else None))
         case["plan"] = ex.plan
         ex.epilogue()
         bv = _oracle(ex, case)
